@@ -13,7 +13,7 @@ EXPLANATION = (
     "sums, per-variant tables, Option guards) and must be identical, branch by branch; constant-sized messages must declare "
     "exactly the number of bytes their writer emits. Header arithmetic of writers/readers is checked by the frame.* rules."
 )
-SIZE_FLOOR = 1694
+SIZE_FLOOR = 1600  # containers with a writer (a refactor may merge or drop a few; counted 1694 on the pinned tree)
 
 
 class Sizes:
